@@ -27,6 +27,11 @@ Fixpoint startswith (s prefix : pystr) : bool :=
 (* pow(base, exp, mod) for exp >= 0 and mod >= 0: ValueError when mod == 0 *)
 Definition py_pow3 (b e m : Z) : res Z := if m =? 0 then Raise ValueError else Ok (modpow b e m).
 
+(* (dh_pub_key.key_length, dh_pub_key.field_order, dh_pub_key.generator) != (dh_params.key_length, dh_params.field_order,
+   dh_params.generator): a tuple comparison (not expressible as a regenerated kernel; tied by the flow tie of compute_kek) *)
+Definition dh_params_mismatch (k : ffcdh_key) (p : ffcdh_params) : bool :=
+  negb ((ffk_key_length k =? ffp_key_length p) && (ffk_field_order k =? ffp_field_order p) && (ffk_generator k =? ffp_generator p)).
+
 Section WithCrypto.
 Context (c : Crypto).
 
@@ -34,6 +39,11 @@ Definition compute_kek (algorithm : hash) (secret_algorithm : pystr) (secret_par
   let* (shared_secret, secret_hash_algorithm) :=
     (if str_eqb secret_algorithm STR_DH then
        let* dh_pub_key := FFCDHKey_unpack public_key in
+       (* repair of D16: the peer's key must use the parameters of the group key (secret_parameters or b"" is the
+          argument itself for bytes) and be a non-degenerate group element *)
+       let* dh_params := FFCDHParameters_unpack secret_parameters in
+       if dh_params_mismatch dh_pub_key dh_params then Raise ValueError else
+       if k_dh_pub_bad (ffk_public_key dh_pub_key) (ffk_field_order dh_pub_key) then Raise ValueError else
        let* shared_secret_int := py_pow3 (ffk_public_key dh_pub_key) (be_val private_key) (ffk_field_order dh_pub_key) in
        let* shared_secret := to_bytes_be_z (ffk_key_length dh_pub_key) shared_secret_int in
        Ok (shared_secret, SHA256)
